@@ -4,7 +4,7 @@ import json, os
 ALL = ["C%02d" % i for i in range(1, 21)]
 
 loopnote = "Virtual clock and scripted poll results (the harness supplies clock_gettime/epoll_ctl/epoll_wait/random); programs are seeded random plus directed scenarios, not an exhaustive enumeration; TLC, sanitizers and the h_loop.c projection are trusted."
-looptech = "TLA+ specification (TLC: bounded random exploration of the spec) + recorded executions of the real loop validated against it by TLC (trace validation)"
+looptech = "TLA+ specifications (TLC: exhaustive refinement check of the transcribed mechanism LoopImpl against the property-level Loop spec per workload; random exploration of Loop) + recorded executions of the real loop validated against Loop by TLC (trace validation)"
 
 # id -> dict(text, note, technique, design_ref)
 CHECKS = {
@@ -79,7 +79,7 @@ CHECKS = {
    text="RingAbs.tla in overwrite mode: every write up to the requested size succeeds and the readable contents are an unbroken run of "
         "the newest chunks, at least the guaranteed suffix; the number of chunks dropped is left open and decided by later reads "
         "(the trace specification branches). Same binding as C07 with overwriting rings, each history ending with a full drain.",
-   note="Ring-level binding (qb_rb_* with QB_RB_FLAG_OVERWRITE, incl. alloc+commit with a larger reservation as the blackbox does); the blackbox dump/print path itself is covered under C15; sequential caller.",
+   note="Ring level: qb_rb_* with QB_RB_FLAG_OVERWRITE incl. alloc+commit with a larger reservation; blackbox level: seeded walks of tiny and near-maximum records with long function names through the real QB_LOG_BLACKBOX target, dump + print after every few records, validated against spec/BbFile.tla (printed records = unbroken run of the newest ones ending with the last); sequential caller.",
    technique="TLA+ model checking (TLC) + model-generated histories replayed on the C code + TLC trace validation (branching on unobserved drops)",
    design_ref="DESIGN.md section 4, C11"),
  "C08": dict(
@@ -94,7 +94,9 @@ CHECKS = {
    text="Loop.tla's timer rules: a timer callback only at or after its expiry, same-priority timers in expiry order, every poll timeout "
         "finite and within the slack of the earliest expiry while a timer is pending, is-running/remaining consistent with pending. Time is a "
         "3-limb integer so the full 64-bit nanosecond range (2^31 ms, 2^32 ms, 2^63, 2^64-1) is validated exactly. Binding as C08 with "
-        "timer-heavy programs, partial sleeps and heap add/delete histories.",
+        "timer-heavy programs, partial sleeps and heap add/delete histories. In addition spec/TimerHeap.tla transcribes the binary heap of "
+        "include/tlist.h; TLC checks heap order and head = minimum over all add/delete/pop histories (7 timers, 4 expiries) and model histories are "
+        "replayed on the real header with the heap array compared entry by entry after every call.",
    note=loopnote, technique=looptech, design_ref="DESIGN.md section 4, C09"),
  "C10": dict(
    text="Loop.tla's fairness rules, evaluated at every poll call of a recorded run: no priority level with work pending over three whole "
